@@ -23,6 +23,7 @@ from fractions import Fraction
 import numpy as np
 
 from common import Ctx, Finding, Outcome, err_class
+import c12_src
 
 def _nx_importable() -> bool:
     """networkx on the path (./check puts the private .work/site there) — QCEL_VERIF_NO_NX=1 forces the fallback (used
@@ -47,7 +48,10 @@ LEAN_TARGETS = ["QcelVerif.Props.C12", "QcelVerif.Lemmas.QuatSurj", "QcelVerif.L
                 "QcelVerif.Model.KabschUnique", "QcelVerif.Lemmas.RotUnique", "QcelVerif.Props.C12Unique",
                 "QcelVerif.Props.C12Shift", "QcelVerif.Model.KabschMirror", "QcelVerif.Props.C12Mirror",
                 "QcelVerif.Model.RandRot", "QcelVerif.Props.C12RandRot",
+                "QcelVerif.Model.KabschAst", "QcelVerif.Model.B787Ast", "QcelVerif.Gen.KabschSrc", "QcelVerif.Gen.B787Src",
+                "QcelVerif.Props.C12Src",
                 "QcelVerif.Driver.C12"]
+TRANSLATORS = [c12_src.gen_align_src]  # lean/QcelVerif/Gen/KabschSrc.lean, Gen/B787Src.lean <- qcelemental/molutil/align.py (ast), on every run
 DRIVER = "QcelVerif/Driver/C12.lean"
 THEOREMS = [
     ("QcelVerif.Kabsch.quatRot_orthogonal", "|q|^2 = 1 -> U(q) U(q)^T = I and U(q)^T U(q) = I for the nine entries written at align.py:544-552 (any commutative ring)"),
@@ -140,6 +144,26 @@ THEOREMS = [
     ("QcelVerif.RandRot.randomRotationMatrix_proper_real", "over R with Real.sin, Real.cos, Real.sqrt, 2 pi: proper rotation whenever 0 <= u3 * 2 * deflection <= 2"),
     ("QcelVerif.RandRot.randomRotationMatrix_proper_unit_interval", "in particular for all deflection in [0,1], u3 in [0,1], any u1, u2"),
     ("QcelVerif.RandRot.randomRotationMatrix_deflection_zero", "deflection = 0 gives the identity matrix (docstring: 'For 0, no rotation') — what the factor R_z(pi) is for"),
+    # --- align.py re-read by harness/c12_src.py on every run (Gen/KabschSrc.lean, Gen/B787Src.lean) and proved equal to the hand models (Props/C12Src.lean)
+    ("QcelVerif.KabschAst.F_src", "[regenerated from align.py] the 16 assignments F[i, j] = ... of kabsch_quaternion (chained targets expanded), run in source order on np.zeros((4,4)), give in BOTH triangles the symmetric matrix Fmat(cov) of the hand model, for every cov"),
+    ("QcelVerif.KabschAst.U_src", "[regenerated from align.py] the 9 assignments U[i, j] = ... of kabsch_quaternion give quatRot q of the hand model, for every q"),
+    ("QcelVerif.KabschAst.kabschAlign_src_partial", "[regenerated from align.py] the translated body of kabsch_align (weight=None: array_equal head-off and its returned identity/zeros, the two centroids sum/N, np.subtract, the operands of cov = Q.dot(P.T) for the call kabsch_quaternion(C.T, R.T), TT = Ccentroid - RR.dot(Rcentroid), C.dot(RR), the matrix inside np.linalg.norm) evaluates to the hand model kabschAlign for all geometries of equal length and every q; partial: equal lengths are a hypothesis (the source divides both column sums by rgeom.shape[0])"),
+    ("QcelVerif.KabschAst.kabschAlignSrc_rotation_proper", "source-derived kabsch_align, unit q, equal lengths: the returned rotation U satisfies U U^T = I, U^T U = I, det U = +1 (head-off or not)"),
+    ("QcelVerif.KabschAst.dist2_recipe", "for U^T U = I and T = cbar - U rbar: squared distance between the reference and the whole concern geometry sent through (c - T).U equals the centred residual (recipe_pointwise lifted to geometries of any length)"),
+    ("QcelVerif.KabschAst.kabschAlignSrc_rmsd_obtained", "source-derived kabsch_align, unit q, equal lengths, head-off not fired: the reported squared residual res2 (= N rmsd^2 / bohr2angstroms^2) is EXACTLY the squared distance between the reference and the concern geometry sent through the returned recipe (c - TT).RR - reported RMSD = RMSD obtained in exact arithmetic"),
+    ("QcelVerif.KabschAst.kabschAlignSrc_shortcut_exact", "source-derived kabsch_align: when the head-off fires, identity / zero shift / residual 0 are exact (shortcut_exact restated)"),
+    ("QcelVerif.KabschAst.kabschAlignSrc_optimal", "over R, source-derived kabsch_align: head-off not fired and the captured eigenvector accepted by the proved checker on the SOURCE-derived F => res2 <= residual of every proper rigid motion + 2 eps + delta(2+delta) sc2 (kabschAlign_optimal restated)"),
+    ("QcelVerif.KabschAst.kabschAlignSrc_recovers_motion", "source-derived kabsch_align, unit q: if its recipe superimposes a rotated+translated copy of a reference that is non-collinear about its centroid exactly, its rotation is A^T and its shift is t (kabschAlign_recovers_motion restated)"),
+    ("QcelVerif.B787Ast.filter_src", "[regenerated from align.py] the translated filter_permutative (bnbn / cncn chains over zip(s, s[1:]), itertools.permutations(cgp), np.allclose(bnbn, cncn), yield pm) evaluates to the hand model filterPermutative for all matrices, tolerances and index groups"),
+    ("QcelVerif.B787Ast.candidates_src", "hence the permutative candidate list built with the source-derived filter equals the hand model's candidates"),
+    ("QcelVerif.B787Ast.update_src_plain", "[regenerated from align.py] the best-so-far block of the plain trial (test temp_rmsd < best_rmsd, stores best_rmsd = temp_rmsd and hold_solution = temp_solution, break test not run_to_completion and best_rmsd < a_convergence) evaluates to the hand model's update for every state and trial"),
+    ("QcelVerif.B787Ast.update_src_mir", "the same for the best-so-far block of the mirror trial"),
+    ("QcelVerif.B787Ast.mirror_flags_src", "[regenerated from align.py] the plain trial builds AlignmentMill(..., mirror=False), the mirror trial mirror=True"),
+    ("QcelVerif.B787Ast.loop_src", "the trial loop assembled from the two translated blocks equals the hand model's loop for all configurations, candidate lists, start indices and states"),
+    ("QcelVerif.B787Ast.run_src", "B787's search over the translated blocks returns exactly what the hand model run returns (never ill-typed)"),
+    ("QcelVerif.B787Ast.runSrc_mirror_only_on_request", "over the source-derived loop: unless run_mirror and not superimposable, the held recipe never has mirror=True"),
+    ("QcelVerif.B787Ast.runSrc_best_is_min", "over the source-derived loop: run_to_completion => best <= every plain trial and every mirrored trial when the mirror pass is on"),
+    ("QcelVerif.B787Ast.runSrc_sel_attains_best", "over the source-derived loop: the held recipe is one of the trials and best is exactly that trial's rounded RMSD (the stored map is updated together with the stored RMSD)"),
 ]
 NX_TEXT_ABSENT = (
     "networkx is absent: algorithm='hungarian_uno' cannot run; wherever the code would ask for it (B787's mirror pre-test hard-codes the default, "
@@ -161,7 +185,8 @@ NX_TEXT_PRESENT = (
 NX_TEXT = NX_TEXT_PRESENT if NX_AT_IMPORT else NX_TEXT_ABSENT
 TRUSTED_BASE = [
     "Lean 4.33 kernel + Mathlib (ring, linear_combination, linarith, nlinarith, field_simp, norm_num; Real.sqrt from Mathlib.Analysis.Real.Sqrt for the surjectivity theorem); axioms per theorem audited on every run",
-    "hand-written models Model/Kabsch.lean (align.py:473-554, models/align.py:70-87) and Model/B787.lean (align.py:143-241, 296-345, 423-431), tied by differential correspondence on the generated stream",
+    "hand-written models Model/Kabsch.lean (align.py:473-554, models/align.py:70-87) and Model/B787.lean (align.py:143-241, 296-345, 423-431), tied by differential correspondence on the generated stream; for the parts listed next the tie is NO LONGER by sampling only",
+    "REGENERATED FROM THE SOURCE on every run (harness/c12_src.py, Python ast -> Gen/KabschSrc.lean, Gen/B787Src.lean) and PROVED equal to the hand model for all inputs (Props/C12Src.lean): kabsch_quaternion's 16 F-assignments and 9 U-assignments (F_src, U_src); kabsch_align's weight=None body - head-off guard and return, centroids, centring, covariance operands, TT, C.dot(RR), the matrix under np.linalg.norm (kabschAlign_src_partial, equal lengths assumed); filter_permutative (filter_src); the two `if temp_rmsd < best_rmsd:` blocks of B787's trial loop incl. both stores and the break test, and the mirror= literals of the two AlignmentMill constructions (update_src_plain/mir, mirror_flags_src, loop_src, run_src). Still trusted on this link: (i) the translator harness/c12_src.py (strict: each statement / expression form is matched explicitly, anything else raises Unsupported and the check reports a broken obligation); it cancels `.T.T` itself when it reads kabsch_quaternion(C.T, R.T) / Q.dot(P.T), accepts `R *= np.sqrt(w[:, None])` with w = np.ones(...) verbatim as the identity, demands `np.linalg.norm(X) * constants.bohr2angstroms / np.sqrt(np.sum(w))`, `ew, ev = np.linalg.eigh(F)`, `q = ev[:, -1]`, the loop header over _plausible_atom_orderings_wrapper and the guard `run_mirror and not superimposable` verbatim, ignores `if verbose >= k: print(...)`, and does NOT interpret the other statements of the loop body (ocount, np.asarray(ordering), the kabsch_align / align_coordinates calls, the np.around of the trial RMSD, icgeom[:, 1] *= -1.0 - these stay hand-modelled + differential); (ii) the evaluators Model/KabschAst.lean and Model/B787Ast.lean, i.e. the numpy/Python meaning given to each constructor (A[i, j] = v on an array, .dot by shapes, broadcasting of a (3,) vector over rows, zip / s[1:] / list comprehension, itertools.permutations = the hand model's perms, np.allclose = the hand model's allcloseL, comparison and assignment of the loop's local variables); (iii) the scalar conversion norm -> RMSD (bohr2angstroms, sqrt(N)) and np.around(…, 8) are not translated. (ii) is what the three-way run (implementation / hand model op K,B,P / source-derived op KS,BS,PS on every such line, answers demanded identical) still samples",
     "numpy.linalg.eigh is NOT modelled and NOT trusted: its eigenvector is captured per call and certified by the proved checker isTopEig (exact rational arithmetic) — accepted certificate => optimality theorem applies to that call",
     "numpy elementwise IEEE arithmetic / np.linalg.norm / np.around / distance_matrix (sqrt): compared against exact rational values under stated tolerances, distance matrices and per-trial rounded RMSDs are inputs of the discrete models",
     "harness/c12.py: generators, the capture wrappers (numpy.linalg.eigh, align.kabsch_align, align.B787, align._plausible_atom_orderings, align.linear_sum_assignment, align.uno), the Python oracle (uses numpy.linalg.svd for the independent optimum)",
@@ -186,6 +211,7 @@ ASSUMPTIONS = [
     "uniqueness clause (Props/C12Unique.lean): PROVED for exact superposition over every linearly ordered field (rotation = A^T, shift = t = cbar - U rbar, on the model's alignCoords, any atom map that is the applied one; NonCollinear shown necessary and sufficient), and quantitatively for a superposition to within eps (|entry of rotation - A^T| <= 4 L eps / sqrt g). The shift is now bounded quantitatively too (Props/C12Shift.lean recovery_shift_close: |T - t| <= 4 L eps |rbar| / sqrt g + |mean residual|, from the proved identity T - t = rbar (A - U^T) - dbar U^T; the harness uses the tighter of this and its former tolerance max(1e-7, hand-derived bound with an extra factor sqrt 3), i.e. outside the former singular-value class the proved bound plus float allowances IS the shift tolerance, typically 1e-11..1e-8 bohr), and the mirror=True recipe is covered (Props/C12Mirror.lean align_recovers_motion_mirror: the code mirrors first, so rotation/shift of a mirror=True recipe are those of the underlying proper motion — what the oracle compares against). Consequently, outside the former singular-value class the clauses oracle:recovery_rotation / oracle:recovery_shift hold for ANY returned recipe with that measured residual (they are theorem bounds evaluated at the measured eps): what an implementation can actually fail there is 'RMSD ~ 0' / atom-by-atom superposition / reported RMSD = applied RMSD, and a finding of the two kinds in that class would point at the harness's float allowances, not at the code (checked by a harness self-test with a deliberately inconsistent shift). NOT proved: that the floating-point aligner reaches a given eps (the residual is measured per case) and the float allowances the harness adds to the proved bounds (orthogonality defect of the returned matrix, 1e-14/1e-12 x coordinate scale)",
     "recovery of rotation and shift is demanded exactly on the class g >= G_MIN = 1e-5 bohr^4, g = max_{i<j} |(r_i - rbar) x (r_j - rbar)|^2 computed exactly by the Lean driver (op N) on the reference's doubles, and only when the returned atom map / mirror flag are the applied ones; tolerances 1e-8 (rotation entries) / 1e-7 bohr (shift) on the former singular-value class (s1 >= 0.3, s1 >= 0.03 s0 — contained in the margin class for n <= 30), and max(those, theorem bound with the measured residual + orthogonality defect) on the rest of the margin class; below the margin (exactly or nearly collinear: the family 'collinear' has g ~ 1e-28 from rounding) nothing is demanded of rotation and shift",
     "the permutative filter (np.allclose, atol=1.0) is modelled with exact rational comparison; knife-edge inputs (difference within one ulp of the tolerance) are not generated",
+    "source tie of kabsch_align (Props/C12Src.lean kabschAlign_src_partial): the weight=None path only (an explicit weight vector is outside the translated body: the translator accepts the weight branch verbatim and reads `R *= np.sqrt(w[:, None])` as the identity for w = ones), geometries of equal length (B787 refuses unequal shapes at align.py:109; numpy raises at R - C); the eigenvector is supplied, as in the hand model",
 ]
 RULE = (
     "cases = (reference geometry family {generic, planar, collinear, symmetric polyhedra/polygons, lattice, chain, thin} of 2-30 atoms with class labels, "
@@ -207,6 +233,8 @@ RULE = (
     "A 'thin' block (appended last): moderately thin molecules (atoms within w of a line, 3e-3 <= w <= 0.3 bohr, 3-30 atoms), rigid copies, "
     "kabsch_align and B787 with the fixed map, a quarter of them with pivot placements — inside the margin class g >= 1e-5 bohr^4 of the "
     "uniqueness theorems but mostly outside the former singular-value class; every rigid case sends one N line (exact margin) to the driver. "
+    "Every K / B / P model line (one per kabsch_align call, per B787 trial loop, per permutative candidate generation) is sent a second time as "
+    "KS / BS / PS and answered by the functions regenerated from align.py; the two answers must be identical text (three-way). "
     "A case is distinct by (family, n, motion, permutation, route, flags[, pivot class, first atom of the second geometry, special rotation, "
     "degenerate prefix]) and non-trivial when the motion is not the identity, or the pair is unrelated/noisy. "
     "A 'random motion' stream (60 quick / 600 thorough): util.random_rotation_matrix(deflection) and Molecule.scramble(do_rotate=True, "
@@ -221,6 +249,12 @@ RULE = (
        "(orderings)." if NX_AT_IMPORT else "")
 )
 LEVEL_TEXT = (
+    "source tie (Props/C12Src.lean): kabsch_quaternion's matrix constructions, kabsch_align's arithmetic (weight=None), filter_permutative and the "
+    "best-so-far blocks of B787's trial loop are re-read from align.py on every run and proved equal to the hand models for all inputs (equal "
+    "geometry lengths assumed for kabsch_align), and the headline theorems - returned rotation proper, reported RMSD = RMSD obtained (exact "
+    "arithmetic), optimality given the certified eigen step, exact rigid copies recovered, mirror only on request, best = minimum over trials, held "
+    "map = the best trial's - are restated over the source-derived functions; partial: the translator and the AST evaluators are trusted, the rest "
+    "of the loop body and the float conversions stay hand-modelled + differential. "
     "proof, partial: ring-identity and ordered-field theorems for every input about the model of kabsch_quaternion/kabsch_align/"
     "align_coordinates and the B787 trial loop; optimality holds for every call whose captured eigenvector passes the proved certificate "
     "checker (checked on every generated call), against every proper rotation and every proper rigid motion over R (surjectivity of unit "
@@ -254,7 +288,7 @@ LEVEL_TEXT = (
        "re-proved here." if NX_AT_IMPORT else
        "hungarian_uno candidate generation is modelled and proved (Props/C12Uno.lean) but NOT exercised in this run (networkx absent: 'permutative' substituted).")
 )
-TECHNIQUE = "Lean 4 proof (ring identities + exact certificate checker soundness + matching-enumeration completeness + rotation/shift uniqueness and stability on non-collinear sets + mirror/planarity determinant argument + properness of the random-rotation generator) + per-call certification of numpy.linalg.eigh + differential correspondence + Python oracle"
+TECHNIQUE = "Lean 4 proof (source -> AST translation of kabsch_quaternion / kabsch_align / filter_permutative / the B787 best-so-far blocks with equality proofs to the hand models + ring identities + exact certificate checker soundness + matching-enumeration completeness + rotation/shift uniqueness and stability on non-collinear sets + mirror/planarity determinant argument + properness of the random-rotation generator) + per-call certification of numpy.linalg.eigh + differential correspondence + Python oracle"
 
 B2A = None  # filled from qcelemental.constants on first use
 DELTA = Fraction(1, 10**11)  # | |q|^2 - 1 | allowed in the certificate
@@ -2179,6 +2213,32 @@ def run_model_chunks(ctx: Ctx, lines, nproc=4):
     return [a for part in parts for a in part]
 
 
+SRC_OPS = {"K": "KS", "B": "BS", "P": "PS"}  # hand-model op -> op answered by the source-derived function (Props/C12Src.lean)
+
+
+def answer_pending(ctx: Ctx, pend, out: Outcome):
+    """send every pending line through the driver; every K / B / P line is ALSO sent as KS / BS / PS (the same input answered by
+    the functions regenerated from align.py, Gen/KabschSrc.lean + Gen/B787Src.lean) and the two answers must be the same text -
+    Props/C12Src.lean proves them equal, so a difference is a broken tie (translator / evaluator / build), reported as
+    mismatch:src; the hand-model answer is then compared with the implementation as before (three-way)."""
+    out.count("model_lines", len(pend))
+    if ctx.model_available and pend:
+        lines = [p.line for p in pend]
+        twins = [(i, SRC_OPS[ln.split("|", 1)[0]] + "|" + ln.split("|", 1)[1]) for i, ln in enumerate(lines)
+                 if ln.split("|", 1)[0] in SRC_OPS]
+        answers = run_model_chunks(ctx, lines + [t for _, t in twins])
+        for (i, t), a in zip(twins, answers[len(lines):]):
+            out.count("src:" + t.split("|", 1)[0])
+            if a != answers[i]:
+                out.mismatches.append(Finding("mismatch:src", {"line": lines[i][:2000]}, observed=a[:400], expected=answers[i][:400],
+                                              detail="source-derived function (op " + t.split("|", 1)[0] + ", regenerated from align.py) differs from the hand model "
+                                                     "on this input - contradicts Props/C12Src.lean (kabschAlign_src_partial / run_src / candidates_src)"))
+        for p, a in zip(pend, answers[:len(lines)]):
+            p.cmp(a)
+    elif pend:
+        out.notes.append("Lean model unavailable: oracle only")
+
+
 def run_cases(ctx: Ctx, cases, out: Outcome):
     global MODEL_AVAILABLE
     MODEL_AVAILABLE = bool(ctx.model_available)
@@ -2186,13 +2246,7 @@ def run_cases(ctx: Ctx, cases, out: Outcome):
     for i, case in enumerate(cases):
         case.setdefault("seed", (ctx.seed * 7919 + i * 104729) % (2**31))
         evaluate(case, out, pend)
-    out.count("model_lines", len(pend))
-    if ctx.model_available and pend:
-        answers = run_model_chunks(ctx, [p.line for p in pend])
-        for p, a in zip(pend, answers):
-            p.cmp(a)
-    elif pend:
-        out.notes.append("Lean model unavailable: oracle only")
+    answer_pending(ctx, pend, out)
 
 
 R_TOL = Fraction(1, 10**12)  # entrywise |model M - numpy M|
@@ -2200,13 +2254,7 @@ R_DEFECT = Fraction(1, 10**25)  # normalisation defects of the driver's rational
 
 
 def flush_pending(ctx: Ctx, pend, out: Outcome):
-    out.count("model_lines", len(pend))
-    if ctx.model_available and pend:
-        answers = run_model_chunks(ctx, [p.line for p in pend])
-        for p, a in zip(pend, answers):
-            p.cmp(a)
-    elif pend:
-        out.notes.append("Lean model unavailable: oracle only")
+    answer_pending(ctx, pend, out)
 
 
 def cmp_random_rotation(case, M, out: Outcome):
